@@ -3,7 +3,7 @@
 # Confirms a sub-agent's change (/var/tmp/w6in/<PROP>/change<k>.diff + demo<k>.rs) in a private network namespace (the
 # integration tests bind fixed loopback ports), stores it under /verif/seeded/<new-id>/ and runs the property's check on it.
 P=$1; K=$2; ID=$3; TGT=$4; FIL=$5; NEEDS=$6
-D=/var/tmp/w6in/$P
+D=${INTAKE_DIR:-/var/tmp/w6in}/$P
 L=/var/tmp/intake/$ID.log
 {
 unshare -rn sh -c "ip link set lo up; cd /verif && python3 tools/confirm_mutant.py $ID $P $D/change$K.diff $D/demo$K.rs '$TGT' '$FIL' --needs \"$NEEDS\" --demo-md $D/change$K.md"
